@@ -53,10 +53,31 @@ func introUniverse(uni []*mDef) []*mDef {
 					d.Fields[i].Dirs = " @deprecated"
 				}
 			}
+			// described arguments: every entry of an argument list has a description of its own (or none)
+			for i := range d.Fields {
+				if d.Fields[i].Name == "posts" {
+					d.Fields[i].Args = "(\"how many\" first: Int = 10, \"with these tags\" tags: [String!] = [\"a\"], after: ID)"
+				}
+			}
 		case "Post":
 			for i := range d.Fields {
 				if d.Fields[i].Name == "kind" {
 					d.Fields[i].Dirs = " @deprecated"
+				}
+			}
+		case "Filter":
+			for i := range d.Fields {
+				switch d.Fields[i].Name {
+				case "q":
+					d.Fields[i].Desc = "free text"
+				case "limit":
+					d.Fields[i].Desc = "at most"
+				}
+			}
+		case "Query":
+			for i := range d.Fields {
+				if d.Fields[i].Name == "posts" {
+					d.Fields[i].Args = "(\"what to look for\" filter: Filter, first: Int = 5)"
 				}
 			}
 		case "Role":
@@ -65,7 +86,7 @@ func introUniverse(uni []*mDef) []*mDef {
 			d.Dirs = " @specifiedBy(url: \"https://example.com/date\")"
 		case "tag":
 			d.Locs = []string{"FIELD_DEFINITION", "OBJECT", "FIELD"}
-			d.DirArgs = "(name: String = \"t\") repeatable"
+			d.DirArgs = "(\"the label\" name: String = \"t\", weight: Int) repeatable"
 		}
 	}
 	return uni
